@@ -162,3 +162,22 @@ Print Assumptions C16_literal_enum_same_operations.
 Theorem C16_literal_enum_same_macros : forall cls vt vals, wire_macros (KEnum cls vt vals) = wire_macros (KLitEnum vt vals).
 Proof. exact literal_enum_same_macros. Qed.
 Print Assumptions C16_literal_enum_same_macros.
+
+(* project_name_override / package_name_override: overrides verbatim; the derived package name is the literal `-` -> `_` replacement *)
+Theorem C16_project_name_override_verbatim : forall c r title, project_name (Some (c :: r)) title = c :: r.
+Proof. exact project_name_override_verbatim. Qed.
+Print Assumptions C16_project_name_override_verbatim.
+Theorem C16_package_name_override_verbatim : forall c r po title, package_name (Some (c :: r)) po title = c :: r.
+Proof. exact package_name_override_verbatim. Qed.
+Print Assumptions C16_package_name_override_verbatim.
+Theorem C16_package_name_is_dash_replacement : forall po title,
+  let p := project_name po title in
+  let k := package_name None po title in
+  List.length k = List.length p /\
+  forall i, nth i k 0 = (if nth i p 0 =? 45 then 95 else nth i p 0).
+Proof. exact package_name_is_dash_replacement. Qed.
+Print Assumptions C16_package_name_is_dash_replacement.
+Theorem C16_package_name_keeps_other_chars : forall c r title x,
+  In x (package_name None (Some (c :: r)) title) -> x <> 45 /\ (In x (c :: r) \/ (x = 95 /\ In 45 (c :: r))).
+Proof. exact package_name_keeps_other_chars. Qed.
+Print Assumptions C16_package_name_keeps_other_chars.
